@@ -10,6 +10,8 @@ import (
 	"sort"
 	"strings"
 
+	"github.com/jotaen/klog/klog/verifrt/vrt"
+
 	"klogverif/clidrv"
 	"klogverif/fw"
 	sm "klogverif/specmodel"
@@ -82,7 +84,7 @@ func init() {
 		Rule: "explicit-state exploration of the FULL state graph of the bookmark database: states = all maps from the name keys {default, a, 'ä b'} (quick) / {default, a, 'ä b', A, 'q\"x'} (thorough) to " +
 			"{absent, existing files with spaces/quotes (quick: 2) and non-ASCII (thorough: 3) in their path (one also by a relative spelling), a missing file set with --force}: 4^3 = 64 / 5^5 = 3125 states; every state is built through the real CLI " +
 			"along a shortest path from the empty database; in every state EVERY operation is executed: set x every spelling of every name (\"\", @, default, @default, a, @a, @@a, …) x every target (with and without --force), " +
-			"unset x every spelling plus unknown names, clear --yes, clear answered y / n / EOF; observers list, info (--dir, --file), `klog total @name`, `klog total` (default bookmark) on every state. " +
+			"unset x every spelling plus unknown names, clear --yes, clear answered y / n / EOF; observers list (also under reversed and rotated map iteration orders), info (--dir, --file), `klog total @name`, `klog total` (default bookmark) on every state. " +
 			"A transition is non-trivial if it changes the state or is rejected; distinct by (state, operation).",
 		Assumptions: []string{
 			"model: a plain map from normalised name to absolute path; normalisation = strip leading '@'s, empty means default",
@@ -268,6 +270,31 @@ func c19Explore(c *fw.Ctx, idx int, tier fw.Tier) {
 	if r := e.run("bookmarks", "list"); r.Code != 0 || r.Stdout != listing(model) {
 		viol("list", fmt.Sprintf("`bookmarks list` printed %q (exit %d), the model gives %q", r.Stdout, r.Code, listing(model)))
 		return
+	}
+	// the listing (and the database written) must not depend on map iteration order: repeat under the
+	// reversed and a rotated order of every map range (vrt.MapSeq owns them on the instrumented build)
+	for _, pick := range []string{"last", "second"} {
+		pick := pick
+		vrt.SetMapChooser(func(kind string, n int, _ bool) int {
+			if pick == "last" {
+				return n - 1
+			}
+			return 1 % n
+		})
+		r := e.run("bookmarks", "list")
+		e2 := c19Sibling(e)
+		why := e2.build(keys, state)
+		db2 := e2.db()
+		vrt.SetMapChooser(nil)
+		c.Count("map_order_executions", 2)
+		if r.Stdout != listing(model) {
+			viol("list-order", fmt.Sprintf("under a different map iteration order (%s alternative) `bookmarks list` printed %q, the model gives %q (ordered by name)", pick, r.Stdout, listing(model)))
+			return
+		}
+		if why == "" && db2 != canonical {
+			viol("db-order", fmt.Sprintf("under a different map iteration order (%s alternative) the same bookmarks are written as %q instead of %q", pick, db2, canonical))
+			return
+		}
 	}
 	names := []string{}
 	for _, k := range keys {
